@@ -327,3 +327,40 @@ EXEMPT_D: dict = {
     ("QueryContext.__init__", "bindings"):
         "`Bindings(d=bindings or [])`: an empty mapping and [] initialise the same empty dict",
 }
+
+
+_run_base = run
+
+
+def run(repo: Repo, rep: Report) -> None:  # noqa: F811
+    _run_base(repo, rep)
+    ev = repo.mod("rdflib.plugins.sparql.evaluate")
+    alg = repo.mod("rdflib.plugins.sparql.algebra")
+    # ------------------------------------------------------------------ (h)
+    rep.rule("C04.h-subquery-sees-only-projected-bindings",
+             "evalMultiset (the evaluator of ToMultiSet, i.e. of a sub-SELECT placed in a group) hands the sub-query a context whose bindings are the outer solution restricted to "
+             "the variables the sub-query projects (`….project(<Project>.PV)`): variables that are not projected are local to the sub-query, so a binding made outside for a variable "
+             "of the same name must not constrain it (top-down binding push-down is an optimisation that is only sound for shared, i.e. projected, variables)", floor=1)
+    em = ev.func("evalMultiset")
+    calls = [c for c in own_nodes(em) if isinstance(c, ast.Call) and norm(c.func) == "evalPart"]
+    if not calls:
+        raise AnalysisError("evalMultiset: evalPart call not found")
+    restricted = [a for a in own_nodes(em) if isinstance(a, ast.Assign) and isinstance(a.targets[0], ast.Name) and a.targets[0].id == em.args.args[0].arg
+                  and any(isinstance(c, ast.Call) and isinstance(c.func, ast.Attribute) and c.func.attr == "project" and c.args and norm(c.args[0]).endswith(".PV") for c in ast.walk(a.value))]
+    for c in calls:
+        uses_ctx = c.args and norm(c.args[0]) == em.args.args[0].arg
+        ok = bool(restricted) and uses_ctx and all(r.lineno < c.lineno for r in restricted)
+        rep.ob("C04.h-subquery-sees-only-projected-bindings", ev, "evalMultiset", c, ok,
+               "context restricted to the projected variables first" if ok else
+               "the sub-query is evaluated under ALL outer bindings: in `?c :q ?c . { SELECT ?a WHERE { ?c :p ?a } }` the inner ?c (not projected, hence a different variable) is forced to equal the outer ?c and rows are lost", node=c)
+
+    # ------------------------------------------------------------------ (i)
+    rep.rule("C04.i-values-variables-are-in-scope-sets",
+             "the translator's `_vars` annotation (`which variables may be bound by this part`, computed by _addVars) includes the variables of a VALUES block; its rows are plain "
+             "dicts that the generic traversal does not descend into, so _addVars needs an arm for the `values` node. evalLeftJoin uses p1._vars to decide which bindings of the left "
+             "solution to keep when it re-checks `no OPTIONAL match without outside bindings`; with an empty set a left row is dropped whenever the right side has any solution at all", floor=1)
+    av = alg.func("_addVars")
+    arm = [n for n in own_nodes(av) if isinstance(n, ast.Compare) and norm(n.left).endswith(".name") and isinstance(n.comparators[0], ast.Constant) and n.comparators[0].value == "values"]
+    rep.ob("C04.i-values-variables-are-in-scope-sets", alg, "_addVars", "arm for the `values` node", bool(arm),
+           "VALUES variables recorded" if arm else
+           "no arm for `values`: ToMultiSet(values)._vars is empty, so `VALUES ?a { :y 0 } OPTIONAL { VALUES ?a { :x \"\" } }` returns no row at all (each left row must survive: nothing on the right is compatible with it)", node=av)
